@@ -143,17 +143,20 @@ Proof. exact send_email_spec. Qed.
 Print Assumptions c18_send_email.
 
 (* a spoken message (say_msg): text and audio URL are each the chain's choice; the locale names the language
-   actually used for its text *)
-Theorem c18_say_msg : forall contact_lang allowed base txt audio tr_txt tr_audio,
+   actually used for its text, and for a message whose text is empty (as evaluated) the language of its audio URL *)
+Theorem c18_say_msg : forall ev contact_lang allowed base txt audio tr_txt tr_audio,
   exists outt usedt outa useda,
     spec_pick contact_lang allowed base [txt] tr_txt outt usedt
     /\ spec_pick contact_lang allowed base [audio] tr_audio outa useda
-    /\ (hd [] outt = [] -> hd [] outa = [] ->
-        say_msg_out contact_lang allowed base txt audio tr_txt tr_audio = None)
-    /\ ((hd [] outt <> [] \/ hd [] outa <> []) ->
-        say_msg_out contact_lang allowed base txt audio tr_txt tr_audio
-        = Some {| i_text := hd [] outt; i_audio := hd [] outa; i_lang := usedt |}).
-Proof. exact say_msg_spec. Qed.
+    /\ (ev (hd [] outt) = [] -> hd [] outa = [] ->
+        say_msg_out_gen ev contact_lang allowed base txt audio tr_txt tr_audio = None)
+    /\ (ev (hd [] outt) <> [] ->
+        say_msg_out_gen ev contact_lang allowed base txt audio tr_txt tr_audio
+        = Some {| i_text := ev (hd [] outt); i_audio := hd [] outa; i_lang := usedt |})
+    /\ (ev (hd [] outt) = [] -> hd [] outa <> [] ->
+        say_msg_out_gen ev contact_lang allowed base txt audio tr_txt tr_audio
+        = Some {| i_text := []; i_audio := hd [] outa; i_lang := useda |}).
+Proof. exact say_msg_gen_spec. Qed.
 Print Assumptions c18_say_msg.
 
 (* a played recording (play_audio) is a text-less message: the locale names the language used for its attachment *)
